@@ -62,6 +62,8 @@ type conf struct {
 	ctxMs      int
 	abortMs    map[int]int // client -> time at which it aborts its connection (RST)
 	noReadTO   bool        // server ReadTimeout 0 (the framework default) instead of 200 ms
+	handleTO   int         // server HandleTimeout in ms (0: none)
+	secondMs   int         // >0: a second Shutdown call (own context of ctxMs) this long after the first began
 }
 
 func scenario(c conf) *vm.Scenario {
@@ -73,7 +75,8 @@ func scenario(c conf) *vm.Scenario {
 			rto = 0
 		}
 		ts, _ := tars.VerifNewServer(adminf.NewAdminF(), imp{}, true, &transport.TarsServerConf{Proto: "tcp", Address: addr,
-			MaxInvoke: c.pool, QueueCap: c.queueCap, IdleTimeout: 600 * time.Second, AcceptTimeout: 500 * time.Millisecond, ReadTimeout: rto})
+			MaxInvoke: c.pool, QueueCap: c.queueCap, IdleTimeout: 600 * time.Second, AcceptTimeout: 500 * time.Millisecond, ReadTimeout: rto,
+			HandleTimeout: time.Duration(c.handleTO) * time.Millisecond})
 		if err := ts.Listen(); err != nil {
 			panic(err)
 		}
@@ -85,6 +88,16 @@ func scenario(c conf) *vm.Scenario {
 		vm.Sleep(int64(c.shutdownMs) * 1e6)
 		ctx, cancel := vctx.WithTimeout(context.Background(), time.Duration(c.ctxMs)*time.Millisecond)
 		vm.Log("shutdown begin t=%d", vm.Now()/1e6)
+		if c.secondMs > 0 {
+			vm.GoNamed("second-shutdown", func() {
+				vm.Sleep(int64(c.secondMs) * 1e6)
+				ctx2, cancel2 := vctx.WithTimeout(context.Background(), time.Duration(c.ctxMs)*time.Millisecond)
+				vm.Log("shutdown2 begin t=%d", vm.Now()/1e6)
+				ts.Shutdown(ctx2)
+				vm.Log("shutdown2 returned t=%d", vm.Now()/1e6)
+				cancel2()
+			})
+		}
 		ts.Shutdown(ctx)
 		vm.Log("shutdown returned t=%d", vm.Now()/1e6)
 		cancel()
@@ -187,6 +200,7 @@ func check(c conf, r *vm.Result) string {
 	closedAt := map[int]int64{}
 	notice := map[int]bool{}
 	var shutBegin, shutEnd int64 = -1, -1
+	var shut2Begin, shut2End int64 = -1, -1
 	lastEnd := int64(0)
 	for _, o := range r.Obs {
 		var k int
@@ -208,6 +222,10 @@ func check(c conf, r *vm.Result) string {
 		case strings.Contains(o, "notice \"_reconnect_\""):
 			fmt.Sscanf(o, "client %d", &k)
 			notice[k] = true
+		case scan(o, "shutdown2 begin t=%d", &t):
+			shut2Begin = t
+		case scan(o, "shutdown2 returned t=%d", &t):
+			shut2End = t
 		case scan(o, "shutdown begin t=%d", &t):
 			shutBegin = t
 		case scan(o, "shutdown returned t=%d", &t):
@@ -306,6 +324,18 @@ func check(c conf, r *vm.Result) string {
 		if all && shutEnd < dl-1 && shutEnd < drained {
 			msgs = append(msgs, fmt.Sprintf("shutdown-returned-before-connections-drained\nreturned t=%d drained t=%d", shutEnd, drained))
 		}
+		if c.secondMs > 0 {
+			// the second call is a Shutdown like the first: it returns when everything has drained or its own context expires
+			dl2 := shut2Begin + int64(c.ctxMs)
+			switch {
+			case shut2Begin < 0 || shut2End < 0:
+				msgs = append(msgs, "second-shutdown-did-not-return")
+			case shut2End > dl2+1:
+				msgs = append(msgs, fmt.Sprintf("second-shutdown-returned-after-its-context-expired\nreturned t=%d deadline t=%d", shut2End, dl2))
+			case all && shut2End < dl2-1 && shut2End < drained:
+				msgs = append(msgs, fmt.Sprintf("second-shutdown-returned-before-connections-drained\nreturned t=%d drained t=%d", shut2End, drained))
+			}
+		}
 	}
 	for _, b := range r.Blocked {
 		if strings.Contains(b, "by:transport.(*tcpHandler).Handle") && strings.Contains(b, ":send") {
@@ -390,6 +420,18 @@ func main() {
 					reqs: []req{{0, 5, 0, 1, false}}}, 1, false)
 			}
 		}
+		// a backlog on one connection that takes longer than the handle timeout to work off (each request well below it)
+		add(conf{name: "backlog-longer-than-handle-timeout", pool: pool, queueCap: 8, clients: 1, shutdownMs: 100, ctxMs: 10000, handleTO: 1000,
+			reqs: []req{{0, 5, 700, 1, false}, {0, 6, 700, 2, false}, {0, 7, 700, 3, false}, {0, 8, 700, 4, false}, {0, 9, 700, 5, false}}}, 1, false)
+		add(conf{name: "handler-longer-than-handle-timeout", pool: pool, queueCap: 8, clients: 1, shutdownMs: 100, ctxMs: 10000, handleTO: 500,
+			reqs: []req{{0, 5, 1200, 1, false}, {0, 6, 300, 2, false}}}, 1, false)
+		// Shutdown called a second time (admin command, then SIGTERM) while the first call is still draining
+		for _, second := range []int{100, 700} {
+			add(conf{name: fmt.Sprintf("second-shutdown+%d", second), pool: pool, queueCap: 8, clients: 2, shutdownMs: 100, ctxMs: 10000, secondMs: second,
+				reqs: []req{{0, 5, 1500, 1, false}, {1, 5, 0, 2, false}}}, 1, false)
+		}
+		add(conf{name: "second-shutdown+100 short-ctx", pool: pool, queueCap: 8, clients: 1, shutdownMs: 100, ctxMs: 1000, secondMs: 100,
+			reqs: []req{{0, 5, 3000, 1, false}}}, 0, false)
 		// idle connected client
 		add(conf{name: "idle-client", pool: pool, queueCap: 8, clients: 2, shutdownMs: 100, ctxMs: 10000,
 			reqs: []req{{0, 5, 0, 1, false}}}, b, false)
